@@ -392,17 +392,21 @@ def run(ctx):
         need.append((ci, 'pixels', '; '.join(bad)))
     # classify the differing cases
     if need:
-        douts = ctx.rvh_batch(binp, 'dump', ["-\t%s" % docs[cases[ci][0]] for ci, _, _ in need])
+        douts = ctx.rvh_batch(binp, 'c07-write', ["-\t%s\t%s" % (c07.wopts_str(cases[ci][1]), docs[cases[ci][0]]) for ci, _, _ in need])
         for (ci, kind, text), do in zip(need, douts):
             k, w = cases[ci]
             lab = "%s [%s]" % (labels[k], c07.wopts_str(w))
-            d = jload(do)
+            wr = jload(do)
+            d = wr.get('dump', {})
             r = jload(outs[ci])
             first_bad = any(s['big12'] > 0 or s['n12'] > max(40, s['w']) for s in r.get('r', []))
             klasses = tree_classes(d, w, first_bad) if 'root' in d else []
             if kind == 'reparse':
                 strs = c07.tree_strings(d) + [w.get('prefix') or ''] if 'root' in d else []
                 klasses = ['unescaped-xml-char'] if any(set(s) & c07.XML_BREAKERS for s in strs) else []
+            elif not klasses and wr.get('skeleton') and c07.unresolved_obb(wr['skeleton']):
+                # a paint server still in objectBoundingBox units is written (C04 / C18 shared-def-nested-obb, F25)
+                klasses = ['unresolved-obb-def']
             elif not klasses and r.get('drift', [False, 0, 0])[1] > 0 and all(s['big12'] == 0 and s['max12'] <= 8 and s['n23'] == 0 for s in r['r']):
                 klasses = ['write-num-ulp']
             full = "%s: %s" % (lab, text)
